@@ -5,6 +5,7 @@ import MidnightZK.Model.C16.Arch
 import MidnightZK.Model.C16.VK
 import MidnightZK.Model.C16.Proof
 import MidnightZK.Model.C16.IR
+import MidnightZK.Model.C16.Compile
 /-!
 Line-protocol handler of property C16.
 
@@ -31,6 +32,46 @@ def cachedDec (c : Cache) (f : Fmt) (a : Bytes) : Except Err G1Pt :=
   match c.get? (f == .processed, a) with
   | some r => r
   | none => decodeG1 f a
+
+/-- Class of an input name as computed by the real constant parser (see `Model/C16/Compile.lean`). -/
+def constClass? (s : String) : Option (Option CTy) :=
+  if s = "-" then some none
+  else if s = "b" then some (some .bool)
+  else if s = "u" then some (some .big)
+  else if s = "p" then some (some .point)
+  else if s = "s" then some (some .scalar)
+  else if s.startsWith "y" then (s.drop 1).toString.toNat?.map (fun n => some (.bytes n))
+  else if s.startsWith "n" then (parseNat? (s.drop 1).toString).map (fun v => some (.native (some v)))
+  else none
+
+def name? (s : String) : Option Bytes := if s = "-" then some [] else parseHexBytes? s
+
+def operand? (s : String) : Option Operand :=
+  match s.splitOn ":" with
+  | [n, c] =>
+    match name? n, constClass? c with
+    | some n, some c => some ⟨n, c⟩
+    | _, _ => none
+  | _ => none
+
+def listOf? {α} (f : String → Option α) (s : String) : Option (List α) :=
+  if s.isEmpty then some [] else (s.splitOn ",").mapM f
+
+/-- `tag.tytag.typaram.num|in,in|out,out`. -/
+def cinstr? (s : String) : Option CInstr :=
+  match s.splitOn "|" with
+  | [h, i, o] =>
+    match (h.splitOn ".").mapM String.toNat?, listOf? operand? i, listOf? name? o with
+    | some [tag, tt, tp, num], some ins, some outs =>
+      let ty : Option IrTy :=
+        if tt = 9 then none
+        else some ⟨tt, match irTypes[tt]? with | some (_, k) => if k = 0 then none else some tp | none => none⟩
+      some ⟨tag, ty, num, ins, outs⟩
+    | _, _, _ => none
+  | _ => none
+
+def program? (s : String) : Option (List CInstr) :=
+  if s = "-" then some [] else (s.splitOn ";").mapM cinstr?
 
 def renderVK (vk : VKey G1Pt) : String :=
   s!"k={vk.k} nf={vk.fixed.length} np={vk.perm.length} dg={digestPts (vk.fixed ++ vk.perm)}"
@@ -127,6 +168,32 @@ def step (c : Cache) (line : String) : Cache × String :=
         | none => "ok"
         | some k => s!"err {((irOps[(l[k]?.getD (0, 0, 0)).1]?).getD ("?", 0)).1}"
       | none => "bad-op")
+  | ["irc", spec] =>
+    (c, match program? spec with
+    | some prog =>
+      match compile prog with
+      | .ok _ => "ok"
+      | .error e => s!"err {e}"
+    | none => "bad-op")
+  | ["iroff", "ib", n, v] =>
+    (c, match n.toNat?, parseNat? v with
+    | some n, some v =>
+      match intoBytesNativeOff n v with
+      | .ok _ => "ok"
+      | .error e => s!"err {e}"
+    | _, _ => "bad-op")
+  | ["iroff", "fb", tt, tp, len] =>
+    (c, match tt.toNat?, tp.toNat?, len.toNat? with
+    | some tt, some tp, some len =>
+      match fromBytesStatic ⟨tt, some tp⟩ len with
+      | .ok _ => "ok"
+      | .error e => s!"err {e}"
+    | _, _, _ => "bad-op")
+  | ["vkdeg", deg, k] =>
+    (c, match deg.toNat?, k.toNat? with
+    | some deg, some k =>
+      if k > fqS then "err k-range" else if extendedK k deg > fqS then "err k-ext" else "ok"
+    | _, _ => "bad-op")
   | _ => (c, "bad-op")
 
 /-- Stateless entry point (fresh memo table). -/
